@@ -170,6 +170,19 @@ type c16Resp struct {
 	Ast   B      `json:"ast,omitempty"`
 	Msg   string `json:"msg,omitempty"`
 	Us    int64  `json:"us"`
+	Wf    string `json:"wf,omitempty"` // a well-formedness defect of an accepted AST
+}
+
+// what every accepted program must satisfy whatever the model says: struct tags strictly ascending (checkTag + sortTag)
+func c16AstDefect(m *ast.Module) string {
+	for _, st := range m.Struct {
+		for i := 1; i < len(st.Mb); i++ {
+			if st.Mb[i-1].Tag >= st.Mb[i].Tag {
+				return fmt.Sprintf("struct %s: tags %d, %d are not strictly ascending", st.Name, st.Mb[i-1].Tag, st.Mb[i].Tag)
+			}
+		}
+	}
+	return ""
 }
 
 func c16ParseOnce(dir string, input []byte) (rs c16Resp) {
@@ -190,7 +203,7 @@ func c16ParseOnce(dir string, input []byte) (rs c16Resp) {
 	if len(tf.IncTarsFile) > 0 {
 		return c16Resp{Class: "multi"}
 	}
-	return c16Resp{Class: "ok", Ast: B(c16SerModule(&tf.Module))}
+	return c16Resp{Class: "ok", Ast: B(c16SerModule(&tf.Module)), Wf: c16AstDefect(&tf.Module)}
 }
 
 func c16WorkerMain() {
@@ -341,7 +354,7 @@ func c16ParseMany(base string, inputs [][]byte, nw int, capMs int) []c16Resp {
 				rs := c16Ask(&w, base, c16Req{ID: i, Input: inputs[i]}, capMs)
 				if rs.Class == "hang" {
 					hmu.Lock()
-					skip := confirmed >= 4 // enough confirmed hangs: the rest are reported as observed, unconfirmed ones would only cost time
+					skip := confirmed >= 2 // enough confirmed hangs: the rest are reported as observed, unconfirmed ones would only cost time
 					hmu.Unlock()
 					if !skip {
 						for r := 0; r < 2 && rs.Class == "hang"; r++ {
@@ -530,6 +543,9 @@ func c16Main(a Args) {
 			c.Text = string(c.Input)
 		}
 		outcomes[c.Kind+"/"+c.Class]++
+		if rs[i].Wf != "" {
+			res.Failures = append(res.Failures, Failure{Sig: "tars2go/parse/accepts-struct-with-unordered-tags", Desc: fmt.Sprintf("parse.NewParse accepts %q but %s", c16Trunc(string(c.Input), 200), rs[i].Wf), Replay: *c})
+		}
 		switch c.Class {
 		case "hang":
 			res.Failures = append(res.Failures, Failure{Sig: "tars2go/parse/hang/" + c16OpenConstruct(c.Input) + "-open-at-eof",
